@@ -129,6 +129,7 @@ type pathEl struct {
 type frame struct {
 	fc      *FnCtx
 	fn      *ssa.Function
+	iterated string // SMT const naming the collection an iterator-body closure is called for
 	prefix  string
 	vals    map[ssa.Value]string
 	addrs   map[ssa.Value]*addr
